@@ -102,7 +102,8 @@ func genEpisode(r *hx.Rng, ip *interp, run func(string) string, n int, st *genSt
 		b[0] |= 1 // not all-zero
 		e.ids = append(e.ids, b)
 	}
-	if r.Chance(1, 3) { // crafted ids: key-family collisions Sha256^k(id0)
+	search := st.m["searcher"] > 0 // searcher: empty initial registry, real-size balances, well-formed accounts
+	if r.Chance(1, 3) && !(search && r.Chance(1, 2)) { // crafted ids: key-family collisions Sha256^k(id0)
 		e.crafted = true
 		k := 1 + r.Intn(3)
 		c := e.ids[0]
@@ -119,21 +120,21 @@ func genEpisode(r *hx.Rng, ip *interp, run func(string) string, n int, st *genSt
 		e.accts = append(e.accts, b)
 	}
 	e.srcs = append(e.srcs, e.accts...)
-	if r.Chance(1, 4) {
+	if !search && r.Chance(1, 4) {
 		s := r.Bytes(1 + r.Intn(3))
 		s[0] = 0x40 | s[0]&0x3f
 		e.accts = append(e.accts, s)
 		e.srcs = append(e.srcs, s)
 		st.inc("short-account")
 	}
-	if r.Chance(1, 6) {
+	if !search && r.Chance(1, 6) {
 		l := r.Bytes(21 + r.Intn(4))
 		l[len(l)-20] = 0x20 | l[len(l)-20]&0x1f
 		e.accts = append(e.accts, l)
 		e.srcs = append(e.srcs, l)
 		st.inc("long-account")
 	}
-	if r.Chance(1, 8) {
+	if !search && r.Chance(1, 8) {
 		e.accts = append(e.accts, []byte{})
 		e.srcs = append(e.srcs, []byte{})
 		st.inc("empty-account")
@@ -157,7 +158,11 @@ func genEpisode(r *hx.Rng, ip *interp, run func(string) string, n int, st *genSt
 	run("uni " + csv(e.ids) + " " + csv(e.accts) + " " + strings.Join(addrs, ","))
 	for _, a := range addrs {
 		var v string
-		switch r.Intn(12) {
+		c := r.Intn(16)
+		if search && c == 5 {
+			c = 6
+		}
+		switch c {
 		case 0:
 			v = "0"
 		case 1:
@@ -181,7 +186,7 @@ func genEpisode(r *hx.Rng, ip *interp, run func(string) string, n int, st *genSt
 		run("code " + addrs[r.Intn(len(addrs))])
 		st.inc("contract-account")
 	}
-	if r.Chance(1, 3) { // any registry state: genesis-style inserts (no uniqueness checks in InsertMiner)
+	if !search && r.Chance(1, 3) { // any registry state: genesis-style inserts (no uniqueness checks in InsertMiner)
 		k := 1 + r.Intn(3)
 		for i := 0; i < k; i++ {
 			typ := r.Intn(2)
